@@ -10,6 +10,7 @@
 -/
 import Lemmas.StripStages
 import Lemmas.Colour3
+import Lemmas.ColourHyphen
 import Props.C14
 namespace TW.C13
 
@@ -22,11 +23,18 @@ namespace TW.C13
 section
 variable {α : Type} [CostNum α]
 
+/-- what the hyphen splitter needs in addition: no sequence touches a hyphen, spaces are met in
+    state `normal`, and the opportunities of the visible text are positive -/
+def HyphenOk (env : Env) (o : Opts) (bs : List Block) (tl : Text) : Prop :=
+  o.splitter = .hyphen →
+    NoTouch .normal false (colOf bs tl) ∧ MetNormal (fun c => c == SP) .normal (colOf bs tl) ∧
+      ∀ x ∈ env.opps (visOf bs), 0 < x
+
 /-- the fragments of the coloured paragraph are, sequence for sequence, the fragments of the
-    visible paragraph (no hyphenation; both separators; `break_words` on or off) -/
-theorem pipeline_colour (env : Env) (o : Opts) (hsp : o.splitter = .none)
+    visible paragraph (both built-in splitters; both separators; `break_words` on or off) -/
+theorem pipeline_colour (env : Env) (o : Opts) (hsp : Builtin o.splitter)
     (bs : List Block) (tl : Text) (hv : ValidB bs tl) (hatt : Attached none bs tl)
-    (hinc : (env.opps (visOf bs)).Pairwise (· < ·)) (sw : Nat) (frs : List Word)
+    (hinc : (env.opps (visOf bs)).Pairwise (· < ·)) (hhy : HyphenOk env o bs tl) (sw : Nat) (frs : List Word)
     (h : pipeline env o (colOf bs tl) sw = some frs) :
     ∃ frs', pipeline env o (visOf bs) sw = some frs' ∧ AllRel (WR env.cw) frs frs' := by
   unfold pipeline at h ⊢
@@ -49,77 +57,85 @@ theorem pipeline_colour (env : Env) (o : Opts) (hsp : o.splitter = .none)
   · next fw hfw =>
     obtain ⟨fw', hfw', hrel⟩ := hwords fw hfw
     simp only [hfw']
-    -- no split points: the words pass through
-    have hcachedC : ∀ W ∈ fw, (o.splitter.points env.isAlnum W.word = [] ∧ W.width = displayWidth env.cw W.word) := by
-      intro W hW
-      refine ⟨by rw [hsp]; rfl, ?_⟩
-      -- every coloured word is related to some visible word
-      have : ∀ (a : List Word) (b : List Word), AllRel (WR env.cw) a b → ∀ W ∈ a, W.width = displayWidth env.cw W.word := by
-        intro a b hab
-        induction hab with
-        | nil => intro W hW; simp at hW
-        | cons h1 _ ih =>
-          intro W hW
-          rcases List.mem_cons.mp hW with rfl | hW
-          · exact h1.2.2.2
-          · exact ih W hW
-      exact this fw fw' hrel W hW
-    have hcachedV : ∀ W ∈ fw', (o.splitter.points env.isAlnum W.word = [] ∧ W.width = displayWidth env.cw W.word) := by
-      intro W hW
-      refine ⟨by rw [hsp]; rfl, ?_⟩
-      have : ∀ (a : List Word) (b : List Word), AllRel (WR env.cw) a b → ∀ W ∈ b, W.width = displayWidth env.cw W.word := by
-        intro a b hab
-        induction hab with
-        | nil => intro W hW; simp at hW
-        | cons h1 _ ih =>
-          intro W hW
-          rcases List.mem_cons.mp hW with rfl | hW
-          · exact h1.width'
-          · exact ih W hW
-      exact this fw fw' hrel W hW
-    rw [splitWords_nopoints env o.splitter fw hcachedC] at h
-    rw [splitWords_nopoints env o.splitter fw' hcachedV]
-    simp only at h ⊢
-    have hbw := breakWords_colour env.cw sw fw fw' hrel
-    cases hbw' : o.breakWords with
-    | false =>
-      simp only [hbw', Bool.false_eq_true, if_false, Option.some.injEq] at h ⊢
-      subst h
-      exact ⟨_, rfl, hrel⟩
-    | true =>
-      simp only [hbw', if_true] at h ⊢
-      cases hii : o.initialIndent.isEmpty with
-      | true =>
-        simp only [hii, if_true, Option.some.injEq] at h ⊢
-        subst h
-        exact ⟨_, rfl, hbw⟩
+    -- the split stage
+    have hsplit : ∀ sws, splitWords env o.splitter fw = some sws →
+        ∃ sws', splitWords env o.splitter fw' = some sws' ∧ AllRel (WR env.cw) sws sws' := by
+      intro sws hsws
+      cases hspl : o.splitter with
+      | none =>
+        rw [hspl] at hsws
+        have hcached : ∀ (a b : List Word), AllRel (WR env.cw) a b →
+            (∀ W ∈ a, W.width = displayWidth env.cw W.word) ∧ (∀ W ∈ b, W.width = displayWidth env.cw W.word) := by
+          intro a b hab
+          induction hab with
+          | nil => simp
+          | cons h1 _ ih =>
+            refine ⟨?_, ?_⟩
+            · intro W hW
+              rcases List.mem_cons.mp hW with rfl | hW
+              · exact h1.2.2.2
+              · exact ih.1 W hW
+            · intro W hW
+              rcases List.mem_cons.mp hW with rfl | hW
+              · exact h1.width'
+              · exact ih.2 W hW
+        obtain ⟨k1, k2⟩ := hcached fw fw' hrel
+        rw [splitWords_nopoints env .none fw (fun W hW => ⟨rfl, k1 W hW⟩)] at hsws
+        simp only [Option.some.injEq] at hsws; subst hsws
+        exact ⟨fw', splitWords_nopoints env .none fw' (fun W hW => ⟨rfl, k2 W hW⟩), hrel⟩
+      | hyphen =>
+        rw [hspl] at hsws
+        obtain ⟨n1, n2, n3⟩ := hhy hspl
+        have hs1 : stripAnsi (colOf bs tl) = visOf bs := strip_colOf bs tl hv
+        have hwnt := findWords_notouch env o.sep (colOf bs tl) n2 n1 (by rw [hs1]; exact hinc)
+          (by rw [hs1]; exact n3) fw hfw
+        exact splitWords_colour_hyphen env fw fw' hrel hwnt sws hsws
+      | custom f => rw [hspl] at hsp; exact absurd hsp (by simp [Builtin])
+    split at h
+    · simp at h
+    · next sws hsws =>
+      obtain ⟨sws', hsws', hrel2⟩ := hsplit sws hsws
+      simp only [hsws']
+      have hbw := breakWords_colour env.cw sw sws sws' hrel2
+      cases hbw' : o.breakWords with
       | false =>
-        simp only [hii, Bool.false_eq_true, if_false, Option.some.injEq] at h ⊢
+        simp only [hbw', Bool.false_eq_true, if_false, Option.some.injEq] at h ⊢
         subst h
-        refine ⟨_, rfl, AllRel.cons ?_ hbw⟩
-        exact ⟨by simp [stripW, Word.from, trimEndSp, stripAnsi, stripFrom], by simp [Word.from, trimEndSp, Ansi.run],
-          by simp [Word.from, trimEndSp], by simp [Word.from]⟩
+        exact ⟨_, rfl, hrel2⟩
+      | true =>
+        simp only [hbw', if_true] at h ⊢
+        cases hii : o.initialIndent.isEmpty with
+        | true =>
+          simp only [hii, if_true, Option.some.injEq] at h ⊢
+          subst h
+          exact ⟨_, rfl, hbw⟩
+        | false =>
+          simp only [hii, Bool.false_eq_true, if_false, Option.some.injEq] at h ⊢
+          subst h
+          refine ⟨_, rfl, AllRel.cons ?_ hbw⟩
+          exact ⟨by simp [stripW, Word.from, trimEndSp, stripAnsi, stripFrom], by simp [Word.from, trimEndSp, Ansi.run],
+            by simp [Word.from, trimEndSp], by simp [Word.from]⟩
 
 /-- **one paragraph, the general path**: the lines of the coloured paragraph — indent, slice,
     inserted penalty — are those of the visible paragraph, with the sequences removed from the
     slices. Both separators, both algorithms (the minima routine is asked the same question in
-    both runs), `break_words` on or off, every width and indents; no hyphenation. -/
+    both runs), `break_words` on or off, every width and indents, both built-in splitters (for the hyphen splitter: no sequence
+    touches a hyphen, `HyphenOk`). -/
 -- @audit TW.C13.slow_path_colour
 theorem slow_path_colour (env : Env) (mo : MinimaOracle α) (hmo : MoShape mo) (o : Opts)
-    (hsp : o.splitter = .none)
+    (hsp : Builtin o.splitter)
     (bs : List Block) (tl : Text) (hv : ValidB bs tl) (hatt : Attached none bs tl)
-    (hinc : (env.opps (visOf bs)).Pairwise (· < ·)) (nPrev : Nat) (dsC : List LineD)
+    (hinc : (env.opps (visOf bs)).Pairwise (· < ·)) (hhy : HyphenOk env o bs tl) (nPrev : Nat) (dsC : List LineD)
     (h : wrapSingleLineSlow env mo o (colOf bs tl) nPrev = some dsC) :
     ∃ dsV, wrapSingleLineSlow env mo o (visOf bs) nPrev = some dsV ∧
       dsC.map (fun d => (d.indent, stripAnsi d.slice, d.pen)) = dsV.map LineD.parts := by
-  have hr : SplitterInRange env.isAlnum o.splitter := by
-    rw [hsp]; intro w i hi; simp [Splitter.points] at hi
+  have hr : SplitterInRange env.isAlnum o.splitter := builtin_inRange _ _ hsp
   unfold wrapSingleLineSlow at h ⊢
   simp only at h ⊢
   split at h
   · simp at h
   · next frs hp =>
-    obtain ⟨frs', hp', hrel⟩ := pipeline_colour env o hsp bs tl hv hatt hinc _ frs hp
+    obtain ⟨frs', hp', hrel⟩ := pipeline_colour env o hsp bs tl hv hatt hinc hhy _ frs hp
     simp only [hp']
     obtain ⟨c1, _⟩ := pipeline_contig env o hr _ _ frs hp
     obtain ⟨c1', _⟩ := pipeline_contig env o hr _ _ frs' hp'
@@ -166,17 +182,17 @@ theorem run_groupSlice (cw : Char → Nat) (g g' : List Word) (h : AllRel (WR cw
     the sequences from each line of the coloured paragraph gives the lines of the visible one -/
 -- @audit TW.C13.slow_path_colour_rendered
 theorem slow_path_colour_rendered (env : Env) (mo : MinimaOracle α) (hmo : MoShape mo) (o : Opts)
-    (hsp : o.splitter = .none)
+    (hsp : Builtin o.splitter)
     (hii : ∀ c ∈ o.initialIndent, c ≠ ESC) (hsi : ∀ c ∈ o.subsequentIndent, c ≠ ESC)
     (bs : List Block) (tl : Text) (hv : ValidB bs tl) (hatt : Attached none bs tl)
-    (hinc : (env.opps (visOf bs)).Pairwise (· < ·)) (nPrev : Nat) (dsC : List LineD)
+    (hinc : (env.opps (visOf bs)).Pairwise (· < ·)) (hhy : HyphenOk env o bs tl) (nPrev : Nat) (dsC : List LineD)
     (h : wrapSingleLineSlow env mo o (colOf bs tl) nPrev = some dsC) :
     ∃ dsV, wrapSingleLineSlow env mo o (visOf bs) nPrev = some dsV ∧
       dsC.map (fun d => stripAnsi d.render) = dsV.map LineD.render := by
-  obtain ⟨dsV, h1, h2⟩ := slow_path_colour env mo hmo o hsp bs tl hv hatt hinc nPrev dsC h
+  obtain ⟨dsV, h1, h2⟩ := slow_path_colour env mo hmo o hsp bs tl hv hatt hinc hhy nPrev dsC h
   refine ⟨dsV, h1, ?_⟩
   -- facts about the coloured lines: slices end in state `normal`, no penalty
-  have hb : Builtin o.splitter := by rw [hsp]; trivial
+  have hb : Builtin o.splitter := hsp
   have hr : SplitterInRange env.isAlnum o.splitter := builtin_inRange _ _ hb
   have hfacts : ∀ d ∈ dsC, Ansi.run .normal d.slice = .normal ∧ d.pen = [] ∧
       (d.indent = o.initialIndent ∨ d.indent = o.subsequentIndent) := by
@@ -185,7 +201,7 @@ theorem slow_path_colour_rendered (env : Env) (mo : MinimaOracle α) (hmo : MoSh
     split at h
     · simp at h
     · next frs hp =>
-      obtain ⟨frs', hp', hrel⟩ := pipeline_colour env o hsp bs tl hv hatt hinc _ frs hp
+      obtain ⟨frs', hp', hrel⟩ := pipeline_colour env o hsp bs tl hv hatt hinc hhy _ frs hp
       have hnp := pipeline_noPen env o hb _ _ frs hp
       obtain ⟨c1, _⟩ := pipeline_contig env o hr _ _ frs hp
       split at h
@@ -246,11 +262,11 @@ def wrapGeneral (env : Env) (mo : MinimaOracle α) (o : Opts) (text : Text) : Op
 abbrev CPara := List Block × Text
 
 theorem wrapR_colour (env : Env) (mo : MinimaOracle α) (hmo : MoShape mo) (o : Opts)
-    (hsp : o.splitter = .none)
+    (hsp : Builtin o.splitter)
     (hii : ∀ c ∈ o.initialIndent, c ≠ ESC) (hsi : ∀ c ∈ o.subsequentIndent, c ≠ ESC)
     (paras : List CPara)
     (hv : ∀ p ∈ paras, ValidB p.1 p.2 ∧ Attached none p.1 p.2 ∧ LF ∉ colOf p.1 p.2 ∧ LF ∉ visOf p.1 ∧
-      (env.opps (visOf p.1)).Pairwise (· < ·)) :
+      (env.opps (visOf p.1)).Pairwise (· < ·) ∧ HyphenOk env o p.1 p.2) :
     ∀ (off off' n : Nat) (ls : List Text),
       wrapR (blen o.lineEnding.str) (wrapSingleLineSlow env mo o) (paras.map fun p => colOf p.1 p.2) off n = some ls →
       wrapR (blen o.lineEnding.str) (wrapSingleLineSlow env mo o) (paras.map fun p => visOf p.1) off' n =
@@ -264,11 +280,11 @@ theorem wrapR_colour (env : Env) (mo : MinimaOracle α) (hmo : MoShape mo) (o : 
     intro off off' n ls h
     simp only [List.map_cons] at h ⊢
     rw [wrapR_cons] at h ⊢
-    obtain ⟨v1, v2, _, _, v5⟩ := hv p (by simp)
+    obtain ⟨v1, v2, _, _, v5, v6⟩ := hv p (by simp)
     cases hs : wrapSingleLineSlow env mo o (colOf p.1 p.2) n with
     | none => rw [hs] at h; simp at h
     | some dsC =>
-      obtain ⟨dsV, e1, e2⟩ := slow_path_colour_rendered env mo hmo o hsp hii hsi p.1 p.2 v1 v2 v5 n dsC hs
+      obtain ⟨dsV, e1, e2⟩ := slow_path_colour_rendered env mo hmo o hsp hii hsi p.1 p.2 v1 v2 v5 v6 n dsC hs
       rw [hs] at h
       simp only [e1] at h ⊢
       have hlen : dsC.length = dsV.length := by simpa using congrArg List.length e2
@@ -289,11 +305,11 @@ theorem wrapR_colour (env : Env) (mo : MinimaOracle α) (hmo : MoShape mo) (o : 
     for `wrap` itself) -/
 -- @audit TW.C13.wrapGeneral_colour
 theorem wrapGeneral_colour (env : Env) (mo : MinimaOracle α) (hmo : MoShape mo) (o : Opts)
-    (hsp : o.splitter = .none)
+    (hsp : Builtin o.splitter)
     (hii : ∀ c ∈ o.initialIndent, c ≠ ESC) (hsi : ∀ c ∈ o.subsequentIndent, c ≠ ESC)
     (paras : List CPara) (hne : paras ≠ [])
     (hv : ∀ p ∈ paras, ValidB p.1 p.2 ∧ Attached none p.1 p.2 ∧ LF ∉ colOf p.1 p.2 ∧ LF ∉ visOf p.1 ∧
-      (env.opps (visOf p.1)).Pairwise (· < ·))
+      (env.opps (visOf p.1)).Pairwise (· < ·) ∧ HyphenOk env o p.1 p.2)
     (ls : List Text)
     (h : wrapGeneral env mo o (joinWith o.lineEnding.str (paras.map fun p => colOf p.1 p.2)) = some ls) :
     wrapGeneral env mo o (joinWith o.lineEnding.str (paras.map fun p => visOf p.1)) = some (ls.map stripAnsi) := by
@@ -312,15 +328,15 @@ end
 -- @audit TW.C13.wrap_colour_firstfit_ascii
 theorem wrap_colour_firstfit_ascii (env : Env) (hcw : ∀ c, env.cw c ≤ c.utf8Size)
     (mo : MinimaOracle Int) (hmo : MoShape mo) (o : Opts)
-    (hsp : o.splitter = .none) (halg : o.alg = .firstFit) (hsep : o.sep = .ascii)
+    (hsp : Builtin o.splitter) (halg : o.alg = .firstFit) (hsep : o.sep = .ascii)
     (hii : ∀ c ∈ o.initialIndent, c ≠ ESC) (hsi : ∀ c ∈ o.subsequentIndent, c ≠ ESC)
     (paras : List CPara) (hne : paras ≠ [])
     (hv : ∀ p ∈ paras, ValidB p.1 p.2 ∧ Attached none p.1 p.2 ∧ LF ∉ colOf p.1 p.2 ∧ LF ∉ visOf p.1 ∧
-      (env.opps (visOf p.1)).Pairwise (· < ·))
+      (env.opps (visOf p.1)).Pairwise (· < ·) ∧ HyphenOk env o p.1 p.2)
     (ls : List Text)
     (h : wrap env mo o (joinWith o.lineEnding.str (paras.map fun p => colOf p.1 p.2)) = some ls) :
     wrap env mo o (joinWith o.lineEnding.str (paras.map fun p => visOf p.1)) = some (ls.map stripAnsi) := by
-  have hb : Builtin o.splitter := by rw [hsp]; trivial
+  have hb : Builtin o.splitter := hsp
   rw [C05.wrap_shortcut_unobservable_ascii env hcw mo o hb halg hsep] at h ⊢
   exact wrapGeneral_colour env mo hmo o hsp hii hsi paras hne hv ls h
 
